@@ -280,6 +280,8 @@ func c3RunTwo(t *testing.T, w *c3Two, models string) (string, string) {
 	if strings.HasPrefix(classA, "panic") || strings.HasPrefix(classB, "panic") {
 		c3ResetManager()
 	}
+	a0, b0 := classA, classB
+	classA, classB = c3ResolveVanished(w.mode, a0, b0), c3ResolveVanished(w.mode, b0, a0)
 	return c3Sanitize(classA), c3Sanitize(classB)
 }
 
@@ -314,6 +316,9 @@ func c3TwoCase(t *testing.T, out *zzverif.Out, w *c3Two) {
 		where := fmt.Sprintf("A=%s pull=%s mode=%s", classA, p.who, w.mode)
 		if strings.HasPrefix(p.class, "panic") {
 			out.L2("panic", line, "site=two-pulls "+p.class+" "+where)
+		}
+		if p.class == "err:vanished" {
+			out.L2("blob-vanished-under-pull", line, "the shared layer was removed under a pull that no digest mismatch of the other pull explains "+where)
 		}
 		if p.class != "ok" {
 			continue
@@ -405,11 +410,24 @@ func c3TwoCases(r *zzverif.Rng, extra int, emit func(*c3Two)) {
 	_ = strconv.Itoa
 }
 
-// c3ClassifyTwo: both pulls verify the shared blob x at the same time; the slower one may find the file already
-// removed by the faster one (verifyBlob's os.Open fails): that is the same verdict, "x did not verify".
+// c3ClassifyTwo: a pull that fails because the shared blob x is not there any more gets the provisional class
+// "err:vanished"; c3ResolveVanished decides what that means once both pulls have ended.
 func c3ClassifyTwo(x string, err error) string {
 	if err != nil && os.IsNotExist(err) && strings.Contains(err.Error(), "sha256-"+x) {
-		return "err:digest-mismatch"
+		return "err:vanished"
 	}
 	return c3Classify(err)
+}
+
+// c3ResolveVanished: when B JOINED A's transfer (mode "during") both pulls verify x at the same time; the slower one
+// may find the file already removed by the faster one's failed verification (verifyBlob's os.Open fails).  Only
+// then - the OTHER pull really ended with a digest mismatch, in that mode - is "x vanished" the same verdict as
+// "x did not verify".  Anywhere else (another mode, the other pull succeeded or failed differently) a blob vanishing
+// under a pull is something the model does not describe: the class stays "err:vanished" (L1 disagreement) and is an
+// L2 failure of its own.
+func c3ResolveVanished(mode, class, other string) string {
+	if class == "err:vanished" && mode == "during" && other == "err:digest-mismatch" {
+		return "err:digest-mismatch"
+	}
+	return class
 }
